@@ -800,7 +800,16 @@ func validateLeaseSet2Inputs(
 	if err := validateEncryptionKeyInputs(encryptionKeys); err != nil {
 		return err
 	}
-	return validateLeaseInputs(leases)
+	if err := validateLeaseInputs(leases); err != nil {
+		return err
+	}
+	// Apply the structural rules of Validate() as well, so that every
+	// LeaseSet2 the constructor returns passes its own validation: key lengths
+	// must match their key type and reserved flag bits must be zero.
+	if err := validateEncryptionKeys(encryptionKeys); err != nil {
+		return err
+	}
+	return validateReservedFlagsAndLeases(flags, leases)
 }
 
 // validateDestinationSize validates that the destination meets the minimum size requirement.
